@@ -1,5 +1,5 @@
 (* C08 — no false alarms on calls the configuration certainly accepts.  Proofs in Proofs/ArgsP.v. *)
-From RT Require Import Model.Args Proofs.ArgsP.
+From RT Require Import Model.Args Model.CallSpec Proofs.ArgsP.
 
 (* if the declaration admits every possible class of the argument — a union argument whose variants are
    all admitted included — the check passes *)
@@ -26,6 +26,12 @@ Proof.
   intros i Hi. apply Hdef. rewrite map_length in Hi. exact Hi.
 Qed.
 Print Assumptions C08_call_accepted.
+
+(* the spec predicate used end-to-end ("the call certainly fits") implies acceptance in every round *)
+Theorem C08_certain_fit_accepted : forall cr ra ptys args,
+  certainly_fits ptys args = true -> pos_spec cr ra ptys args = COk.
+Proof. exact certainly_fits_accepted. Qed.
+Print Assumptions C08_certain_fit_accepted.
 
 (* the pinned code rejected a union argument that is a strict subset of the declared union: witness *)
 Theorem C08_pinned_refuted :
